@@ -12,7 +12,7 @@ use cvx_core::engine::{Check, CheckInfo, ChunkResult, Tier, Violation};
 use cvx_core::gen_basic::{CfgLite, Family};
 use cvx_core::gen_more::FCall;
 use cvx_core::gen_resolve::{FBadNames, FCallMain, FConcat, FImportScope, FResolve, FSuperLike};
-use cvx_core::ir::Module;
+use cvx_core::ir::{b, call, func, int, module, rv, s, sg, Func, Module, C};
 use cvx_core::refsem::{self, CompileVerdict};
 use serde_json::Value as J;
 use std::sync::OnceLock;
@@ -56,8 +56,74 @@ impl Judge for ResolveJudge {
 
 static FAMS: OnceLock<Vec<Box<dyn Family>>> = OnceLock::new();
 
+/// Card labels and function labels live in one table keyed by 32-bit handles. A card whose index
+/// (function, path) hashes to the handle of a function compiled *before* it would replace that
+/// function's label, and a call of the function would run the card. The collisions are searched
+/// with the crate's own `CardIndex::as_handle` / `Handle::from_u64` (function index <= 20, paths
+/// of three indices below 170 / 140 / 160: 72 million card indices), in a fixed order; the first
+/// three become programs: functions f1..fn that each record their name, the colliding card deep
+/// inside fn (behind Comment cards), `main` calls the function whose handle the card shares.
+pub struct FLabelClash;
+
+static CLASHES: OnceLock<Vec<(u32, [u32; 3], u32)>> = OnceLock::new();
+
+fn clashes() -> &'static Vec<(u32, [u32; 3], u32)> {
+    CLASHES.get_or_init(|| {
+        use cao_lang::compiler::CardIndex;
+        use cao_lang::prelude::Handle;
+        let mut found = Vec::new();
+        let targets: Vec<u32> = (0..=20u64).map(|g| Handle::from_u64(g).value()).collect();
+        'search: for f in 2..=20u32 {
+            for a in 0..170u32 {
+                for b2 in 0..140u32 {
+                    for c in 0..160u32 {
+                        let h = CardIndex::from_slice(f as usize, &[a, b2, c]).as_handle().value();
+                        // a function compiled before function f: 1 .. f-1
+                        if let Some(g) = targets[1..f as usize].iter().position(|t| *t == h) {
+                            found.push((f, [a, b2, c], g as u32 + 1));
+                            if found.len() == 3 {
+                                break 'search;
+                            }
+                        }
+                    }
+                }
+            }
+        }
+        found
+    })
+}
+
+impl Family for FLabelClash {
+    fn name(&self) -> &'static str {
+        "F-label-clash"
+    }
+    fn len(&self) -> u64 {
+        3
+    }
+    fn case(&self, idx: u64) -> Module {
+        let Some(&(f, [a, b2, c], g)) = clashes().get(idx as usize) else {
+            // fewer collisions than cases within the searched bounds: nothing to build
+            return module(vec![("main", func(&[], vec![sg("no_clash_found", int(1))]))]);
+        };
+        let comments = |n: u32| -> Vec<C> { (0..n).map(|_| C::Comment("c".into())).collect() };
+        let mut functions: Vec<(String, Func)> = vec![("main".into(), func(&[], vec![sg("ret", call(&format!("f{g}"), vec![])), sg("seen", rv("tag"))]))];
+        for i in 1..f {
+            functions.push((format!("f{i}"), func(&[], vec![sg("tag", s(&format!("f{i}"))), C::Return(b(s(&format!("ret f{i}"))))])));
+        }
+        // function f: card f.a.b.c is `global tag = "inner"`
+        let mut innermost = comments(c);
+        innermost.push(sg("tag", s("card inside the last function")));
+        let mut middle = comments(b2);
+        middle.push(C::Composite("inner".into(), innermost));
+        let mut top = comments(a);
+        top.push(C::Composite("middle".into(), middle));
+        functions.push((format!("f{f}"), func(&[], top)));
+        Module { submodules: vec![], functions, imports: vec![] }
+    }
+}
+
 pub fn families(_tier: Tier) -> &'static Vec<Box<dyn Family>> {
-    FAMS.get_or_init(|| vec![Box::new(FCallMain), Box::new(FConcat), Box::new(FSuperLike), Box::new(FBadNames), Box::new(FCall), Box::new(FResolve), Box::new(FImportScope)])
+    FAMS.get_or_init(|| vec![Box::new(FCallMain), Box::new(FLabelClash), Box::new(FConcat), Box::new(FSuperLike), Box::new(FBadNames), Box::new(FCall), Box::new(FResolve), Box::new(FImportScope)])
 }
 
 static JUDGE: ResolveJudge = ResolveJudge;
@@ -69,7 +135,7 @@ impl Check for C08 {
     fn info(&self, tier: Tier) -> CheckInfo {
         let fams = families(tier);
         CheckInfo {
-            rule: "F-resolve: 128 module trees (presence of f/g in root, a, a.b, b: same short names reused across modules) x call site in root / a / a.b x 10 called names (f, g, a.f, a.b.f, b.f, b.g, std.row_to_value, x, filter, a.b.g) x static Call / Function value + dynamic call x 20 import lists (function imports, module-prefix imports, super. walking up one to three levels, no dot, duplicates, ambiguous pairs, library imports); every generated function logs and returns its own full path. F-import-scope: the same trees with the import list on one module and the import-less caller in another (descendant, parent, sibling; 6 pairs) x 10 called names x 20 import lists. F-concat: every ordered pair of 9 call sites (module path, called name) of which four read alike once path and name are written without a separator (root:abf, a:bf, a.b:f, ab:f), static and dynamic. F-badnames: invalid / reserved / duplicate function and module names and user functions named like library functions at three levels. F-call: arity 0-3, parameter binding, caller-locals canary, return positions, recursion. Oracle: independent resolver over the module tree (absolute path, caller's module, function imports, module-prefix imports) + reference run. 'states' = distinct reference outcomes per chunk".into(),
+            rule: "F-resolve: 128 module trees (presence of f/g in root, a, a.b, b: same short names reused across modules) x call site in root / a / a.b x 10 called names (f, g, a.f, a.b.f, b.f, b.g, std.row_to_value, x, filter, a.b.g) x static Call / Function value + dynamic call x 20 import lists (function imports, module-prefix imports, super. walking up one to three levels, no dot, duplicates, ambiguous pairs, library imports); every generated function logs and returns its own full path. F-import-scope: the same trees with the import list on one module and the import-less caller in another (descendant, parent, sibling; 6 pairs) x 10 called names x 20 import lists. F-label-clash: the first three (function, 3-deep card path) pairs within 72 million searched card indices whose card label shares its 32-bit handle with an earlier function's label, as programs calling that function. F-concat: every ordered pair of 9 call sites (module path, called name) of which four read alike once path and name are written without a separator (root:abf, a:bf, a.b:f, ab:f), static and dynamic. F-badnames: invalid / reserved / duplicate function and module names and user functions named like library functions at three levels. F-call: arity 0-3, parameter binding, caller-locals canary, return positions, recursion. Oracle: independent resolver over the module tree (absolute path, caller's module, function imports, module-prefix imports) + reference run. 'states' = distinct reference outcomes per chunk".into(),
             bound: format!("families {:?}, {} module trees", fams.iter().map(|f| format!("{}={}", f.name(), f.len())).collect::<Vec<_>>(), progcheck::total_cases(fams)),
             exhaustive: true,
             assumptions: vec![
